@@ -19,6 +19,11 @@
 (***************************************************************************)
 EXTENDS Integers, Sequences, FiniteSets, TLC
 
+\* Generation may be restricted to the operations of some tags (--tags): the operations that are generated
+\* enforce exactly what they enforce in the full server - in particular the requirements they INHERIT from the
+\* document, whose schemes no selected operation may name itself.
+Selection == {"all", "tagged"}
+
 CONSTANTS Schemes,        \* scheme names
           Missing         \* schemes whose authenticator is absent from AuthenticatorsFor ({} in the real design)
 
